@@ -71,6 +71,11 @@ func parseJSONMultiPoint(keys *parseKeys, opts *ParseOptions) (Object, error) {
 		return nil, err
 	}
 	g.parseInitRectIndex(opts)
+	if opts.RequireValid {
+		if !g.Valid() {
+			return nil, errCoordinatesInvalid
+		}
+	}
 	return &g, nil
 }
 
